@@ -85,6 +85,7 @@ class Builtins:
         return res
 
     def make_set(self, items, node):
+        """concrete-spine set; elements whose equality is symbolic are kept side by side (only membership / inclusion are used)"""
         out = []
         for x in items:
             dup = False
@@ -93,8 +94,6 @@ class Builtins:
                 if z3.is_true(r):
                     dup = True
                     break
-                if not z3.is_false(r):
-                    raise EngineError("set with symbolic elements")
             if not dup:
                 out.append(x)
         return self.ctx.new_cell("set", out)
@@ -102,10 +101,10 @@ class Builtins:
     def set_compare(self, op, a, b, node):
         A, Bs = self.ctx.cell(a), self.ctx.cell(b)
         def sub(X, Y):
-            return all(any(z3.is_true(z3.simplify(self.py_eq(y, x, node))) for y in Y) for x in X)
+            return z3.And(*[z3.Or(*[self.py_eq(y, x, node) for y in Y]) if Y else z3.BoolVal(False) for x in X]) if X else z3.BoolVal(True)
         le, ge = sub(A, Bs), sub(Bs, A)
-        r = {ast.LtE: le, ast.GtE: ge, ast.Lt: le and not ge, ast.Gt: ge and not le}[type(op)]
-        return VBool(r)
+        r = {ast.LtE: le, ast.GtE: ge, ast.Lt: z3.And(le, z3.Not(ge)), ast.Gt: z3.And(ge, z3.Not(le))}[type(op)]
+        return VBool(z3.simplify(r))
 
     # ------------------------------------------------------------------ class of a value (isinstance / type)
     def static_classes(self, v):
@@ -140,6 +139,8 @@ class Builtins:
             return {{"ndarray": "ndarray", "quaternion": "Quaternion", "polygon": "Polygon"}.get(v.tag, v.tag), "object", "np.ndarray"}
         if k == "exc":
             return {v.cname, "Exception", "object"}
+        if k == "opaque" and v.tag == "symiter":
+            return {"range", "object"}
         if k in ("func", "lambda", "ext"):
             return {"function", "object"}
         if k == "class":
@@ -842,6 +843,9 @@ class Builtins:
             return TTuple(*[self.type_of_val(x) for x in v.items])
         if k == "opt":
             return TOpt(self.type_of_val(v.inner))
+        if k == "dyn":
+            from .dyn import TDyn
+            return TDyn()
         raise EngineError(f"no SMT type for {v}")
 
     def instantiate_smt(self, cls, cm, args, kwargs, node):
